@@ -64,7 +64,8 @@ AK_STRUCTS = [
 
 def strategy(cell, tier):
     d = cell["d"]
-    el = gen.vec(("moderate",))
+    # 4D: space-like elements too (stored with tau they carry a negative tau, and t = sqrt(mag2 - tau**2))
+    el = gen.vec(("moderate", "moderate", "spacelike") if d == 4 else ("moderate",))
     return st.fixed_dictionaries({
         "elems": st.lists(el, min_size=12, max_size=12),
         "zero": st.lists(st.sampled_from((False, False, False, True, "az", "spatial", "zonly")), min_size=12, max_size=12),
